@@ -851,7 +851,8 @@ func TestVerifC32(t *testing.T) {
 	}
 	h := &verifutil.Harness{
 		ID: "C32", Exec: verifC32Exec, Gen: verifC32Gen, Quick: 5000, Thorough: 100000,
-		Class: verifC32Class,
+		Class:      verifC32Class,
+		NonTrivial: func(op, impl string) bool { return op != "reset" },
 	}
 	curPath := filepath.Join(out, "current-op")
 	if os.Getenv("VERIF_C32_CHILD") == "1" {
